@@ -714,7 +714,7 @@ func (s String) find(args Tuple) (Object, error) {
 func (s String) Split(args Tuple, kwargs StringDict) (Object, error) {
 	var (
 		pyval Object = None
-		pymax Object = Int(-2)
+		pymax Object = Int(-1)
 		pyfmt        = "|Oi:split"
 		kwlst        = []string{"sep", "maxsplit"}
 	)
@@ -729,7 +729,15 @@ func (s String) Split(args Tuple, kwargs StringDict) (Object, error) {
 	)
 	switch v := pyval.(type) {
 	case String:
-		vs = strings.SplitN(string(s), string(v), int(max)+1)
+		if len(v) == 0 {
+			return nil, ExceptionNewf(ValueError, "empty separator")
+		}
+		// a negative maxsplit means no limit, as does a negative n for SplitN
+		n := -1
+		if max >= 0 {
+			n = int(max) + 1
+		}
+		vs = strings.SplitN(string(s), string(v), n)
 	case NoneType:
 		vs = fieldsN(string(s), int(max))
 	default:
